@@ -368,6 +368,46 @@ class NativeBackend(BackendBase):
             restore()
             self.meta["state_via"] = "private"
 
+    def try_public_membership(self, objs, unis):
+        """reach the privately installed membership state with Universe.add_vertex calls"""
+        tm = {id(u): list(u.__dict__["_vertices"]) for u in unis}
+        tu = {id(o): list(o.__dict__["_universes"]) for o in objs}
+        hist = []
+
+        def restore():
+            for u in unis:
+                u.__dict__["_vertices"] = list(tm[id(u)])
+            for o in objs:
+                o.__dict__["_universes"] = list(tu[id(o)])
+        try:
+            for u in unis:
+                u.__dict__["_vertices"] = []
+            for o in objs:
+                o.__dict__["_universes"] = []
+            progress = True
+            while progress:
+                progress = False
+                for u in unis:
+                    cur = u.__dict__["_vertices"]
+                    if len(cur) >= len(tm[id(u)]):
+                        continue
+                    x = tm[id(u)][len(cur)]
+                    cx = x.__dict__["_universes"]
+                    if len(cx) < len(tu[id(x)]) and tu[id(x)][len(cx)] is u:
+                        u.add_vertex(x)
+                        hist.append(f"{self.label_of(u)}.add_vertex({self.label_of(x)})")
+                        progress = True
+            ok = all(_same(u.__dict__["_vertices"], tm[id(u)]) for u in unis) and \
+                all(_same(o.__dict__["_universes"], tu[id(o)]) for o in objs)
+        except Exception:
+            ok = False
+        if ok:
+            self.meta["state_via"] = "public"
+            self.meta["history"] = hist
+        else:
+            restore()
+            self.meta["state_via"] = "private"
+
     def result(self):
         idmap = self.idmap()
         return {
